@@ -333,19 +333,37 @@ func (c *compiler) compile(tok *token) []instruction {
 		arg := tok.Tokens[0]
 		if arg.Symbol == "index" {
 			const indexItem, indexKey = 0, 1
-			res = append(res, c.compile(arg.Tokens[indexItem])...)
-			res = append(res, c.compile(arg.Tokens[indexKey])...)
+			item, key := c.compile(arg.Tokens[indexItem]), c.compile(arg.Tokens[indexKey])
+			if hasCall(arg.Tokens[indexItem]) || hasCall(arg.Tokens[indexKey]) {
+				// the operands are evaluated once: into two hidden slots, read back for the GET and the SET
+				hi, hk := c.Locals.Index(arg.Pos.String()+"#item"), c.Locals.Index(arg.Pos.String()+"#key")
+				res = append(res, item...)
+				res = append(res, instruction{Code: codeLocalSet, A: reg(hi), B: 1})
+				res = append(res, key...)
+				res = append(res, instruction{Code: codeLocalSet, A: reg(hk), B: 1})
+				item = []instruction{{Code: codeLocalGet, A: reg(hi)}}
+				key = []instruction{{Code: codeLocalGet, A: reg(hk)}}
+			}
+			res = append(res, item...)
+			res = append(res, key...)
 			res = append(res, instruction{Code: codeGet})
 			res = append(res, todo...)
-			res = append(res, c.compile(arg.Tokens[indexItem])...)
-			res = append(res, c.compile(arg.Tokens[indexKey])...)
+			res = append(res, item...)
+			res = append(res, key...)
 			res = append(res, instruction{Code: codeSet})
 		} else if arg.Symbol == "." {
 			const indexItem, indexKey = 0, 1
-			res = append(res, c.compile(arg.Tokens[indexItem])...)
+			item := c.compile(arg.Tokens[indexItem])
+			if hasCall(arg.Tokens[indexItem]) { // evaluated once, as above
+				hi := c.Locals.Index(arg.Pos.String() + "#item")
+				res = append(res, item...)
+				res = append(res, instruction{Code: codeLocalSet, A: reg(hi), B: 1})
+				item = []instruction{{Code: codeLocalGet, A: reg(hi)}}
+			}
+			res = append(res, item...)
 			res = append(res, instruction{Code: codeGetAttr, A: reg(c.Globals.Index(arg.Tokens[indexKey].Text))})
 			res = append(res, todo...)
-			res = append(res, c.compile(arg.Tokens[indexItem])...)
+			res = append(res, item...)
 			res = append(res, instruction{Code: codeSetAttr, A: reg(c.Globals.Index(arg.Tokens[indexKey].Text))})
 		} else {
 			getter := codeGlobalGet
@@ -962,6 +980,22 @@ func (c *compiler) compileAll(tokens []*token) []instruction {
 		res = append(res, c.compile(t)...)
 	}
 	return res
+}
+
+// hasCall reports whether evaluating the expression may call a function
+func hasCall(t *token) bool {
+	if t == nil {
+		return false
+	}
+	if t.Symbol == "call" {
+		return true
+	}
+	for _, tt := range t.Tokens {
+		if hasCall(tt) {
+			return true
+		}
+	}
+	return false
 }
 
 func (c *compiler) optimize(in []instruction) []instruction {
